@@ -51,14 +51,43 @@ def nav_many(inst, kind, rel, phrase=''):
     return list(xtuml.navigate_many(inst).nav(kind, rel, phrase)())
 
 
+_SCHEMA = {}
+
+
+def schema():
+    """The constraints of the ooaofooa schema, read from its text (bridgepoint.schema: data, not code under test):
+    rops [(rel, source card, source kind, source phrase, target card, target kind, target phrase)], indices
+    {kind: {name: [attributes]}}, types {kind: {ATTRIBUTE: TYPE}}, subtypes {rel: {supertype kind: [subtype kinds]}}."""
+    if _SCHEMA:
+        return _SCHEMA
+    import re
+    from bridgepoint import schema as sch
+    rops = []
+    pat = re.compile(r"CREATE ROP REF_ID (R\d+)\s+FROM (\w+) (\w+) \(([^)]*)\)(?: PHRASE '([^']*)')?\s+"
+                     r"TO (\w+) (\w+) \(([^)]*)\)(?: PHRASE '([^']*)')?;")
+    for m in pat.finditer(sch.associations):
+        rops.append((m.group(1), m.group(2), m.group(3), m.group(5) or '', m.group(6), m.group(7), m.group(9) or ''))
+    assert len(rops) == sch.associations.count('CREATE ROP')
+    indices = {}
+    for m in re.finditer(r'CREATE UNIQUE INDEX (\w+) ON (\w+) \(([^)]*)\);', sch.indices):
+        indices.setdefault(m.group(2), {})[m.group(1)] = [a.strip() for a in m.group(3).split(',')]
+    types = {}
+    for m in re.finditer(r'CREATE TABLE (\w+)\s*\((.*?)\);', sch.classes, re.S):
+        types[m.group(1)] = dict((c.split()[0].upper(), c.split()[1].upper()) for c in m.group(2).split(',') if c.strip())
+    subs = {}
+    for rel, sc, sk, sp, tc, tk, tp in rops:
+        subs.setdefault(rel, {}).setdefault(tk, []).append(sk)
+    _SCHEMA.update(rops=rops, indices=indices, types=types, subtypes=subs)
+    return _SCHEMA
+
+
 def subtypes(inst, rel):
-    import xtuml
+    """Instances related to a supertype instance across a subtype association (R603 / R801)."""
     out = []
-    mc = xtuml.get_metaclass(inst)
-    for key in list(mc.links.keys()):
-        if key[1] == rel:
-            for x in mc.links[key].navigate(inst):
-                out.append(x)
+    for k in schema()['subtypes'][rel][kind_of(inst)]:
+        x = nav(inst, k, int(rel[1:]))
+        if x is not None:
+            out.append(x)
     return out
 
 
@@ -68,37 +97,88 @@ def kind_of(inst):
 
 
 def constraint_violations(m):
-    """{(id(instance), kind, rel, target kind, phrase, 'none'|'many')} for every association end of the schema."""
-    out = {}
-    for ass in m.associations:
-        for link in (ass.source_link, ass.target_link):
-            for inst in link.from_metaclass.storage:
-                n = len(link.navigate(inst))
-                if n < 1 and not link.conditional:
-                    out[(id(inst), link.from_metaclass.kind, ass.rel_id, link.to_metaclass.kind, link.phrase, 'none')] = inst
-                elif n > 1 and not link.many:
-                    out[(id(inst), link.from_metaclass.kind, ass.rel_id, link.to_metaclass.kind, link.phrase, 'many')] = inst
+    """{(kind, position of the instance among its kind, rel, target kind, phrase, 'none'|'many')}: association ends of the
+    schema whose multiplicity or conditionality does not hold for an instance (full scan; used once for the seed model)."""
+    out = set()
+
+    def check(kind, rel, to_kind, phrase, card):
+        for idx, inst in enumerate(m.select_many(kind)):
+            n = len(nav_many(inst, to_kind, int(rel[1:]), phrase))
+            if n < 1 and 'C' not in card:
+                out.add((kind, idx, rel, to_kind, phrase, 'none'))
+            elif n > 1 and 'M' not in card:
+                out.add((kind, idx, rel, to_kind, phrase, 'many'))
+
+    for rel, sc, sk, sp, tc, tk, tp in schema()['rops']:
+        check(sk, rel, tk, sp, tc)      # from the referring (source) instance to the target end
+        check(tk, rel, sk, tp, sc)      # and back
     return out
+
+
+_BASE = {}
+
+
+def seed_violations():
+    """Constraint violations of the seed model before any prebuild (they do not count)."""
+    if 'v' not in _BASE:
+        _BASE['v'] = constraint_violations(R.load(M.model_text()))
+    return _BASE['v']
+
+
+def stable_keys(m):
+    keys, count = {}, {}
+    for i in m.instances:
+        k = kind_of(i)
+        keys[id(i)] = (k, count.get(k, 0))
+        count[k] = count.get(k, 0) + 1
+    return keys
+
+
+def new_constraint_violations(m, old_keys, new):
+    """Violations at created instances, and upper-bound violations at pre-existing instances they were related to, that
+    the seed model did not have.  (A lower-bound violation cannot appear at a pre-existing instance: nothing pre-existing is unrelated.)"""
+    if 'by_kind' not in _BASE:
+        by = {}
+        for rel, sc, sk, sp, tc, tk, tp in schema()['rops']:
+            by.setdefault(sk, []).append((rel, tk, sp, tc, tp, sc))
+            by.setdefault(tk, []).append((rel, sk, tp, sc, sp, tc))
+        _BASE['by_kind'] = by
+    base = seed_violations()
+    out = set()
+    for x in new:
+        kx = kind_of(x)
+        for rel, to_kind, phrase, card, back_phrase, back_card in _BASE['by_kind'].get(kx, []):
+            ys = nav_many(x, to_kind, int(rel[1:]), phrase)
+            if len(ys) < 1 and 'C' not in card:
+                out.add((kx, rel, to_kind, phrase, 'none'))
+            elif len(ys) > 1 and 'M' not in card:
+                out.add((kx, rel, to_kind, phrase, 'many'))
+            for y in ys:
+                if id(y) in old_keys and 'M' not in back_card:
+                    if len(nav_many(y, kx, int(rel[1:]), back_phrase)) > 1:
+                        k, idx = old_keys[id(y)]
+                        if (k, idx, rel, kx, back_phrase, 'many') not in base:
+                            out.add((k, rel, kx, back_phrase, 'many'))
+    return sorted(out)
 
 
 def uniqueness_violations(m, new_ids):
     out = []
-    for mc in m.metaclasses.values():
-        if not mc.indices:
-            continue
-        insts = list(mc.storage)
+    sch = schema()
+    for kind, idx in sch['indices'].items():
+        insts = list(m.select_many(kind))
         if not any(id(i) in new_ids for i in insts):
             continue
-        types = dict((n.upper(), t.upper()) for n, t in mc.attributes)
-        for ident, names in mc.indices.items():
+        types = sch['types'][kind]
+        for ident, names in idx.items():
             seen = {}
             for i in insts:
                 vals = tuple(getattr(i, n) for n in names)
                 null = any(v is None or (types.get(n.upper()) == 'UNIQUE_ID' and not v) for n, v in zip(names, vals))
                 if null and id(i) in new_ids:
-                    out.append('%s.%s null: %s' % (mc.kind, ident, ', '.join(names)))
+                    out.append('%s.%s null: %s' % (kind, ident, ', '.join(names)))
                 if vals in seen and (id(i) in new_ids or id(seen[vals]) in new_ids) and not null:
-                    out.append('%s.%s duplicated' % (mc.kind, ident))
+                    out.append('%s.%s duplicated' % (kind, ident))
                 seen[vals] = i
     return sorted(set(out))
 
@@ -388,8 +468,7 @@ def run_case(case):
         return [dict(clause='generator-drift', observed=text, required=case['text'])]
     m = R.load(M.model_text())
     inst = M.home_instance(m, home)
-    before = set(id(i) for i in m.instances)
-    v0 = constraint_violations(m)
+    old_keys = stable_keys(m)
     inst.Action_Semantics_internal = text
     inst.Suc_Pars = 1
     try:
@@ -398,11 +477,10 @@ def run_case(case):
         if isinstance(e, (KeyboardInterrupt, MemoryError)):
             raise
         return [dict(clause='prebuild-raises', observed=traceback.format_exc().splitlines()[-3:], required='instances for a well-formed program')]
-    new = [i for i in m.instances if id(i) not in before]
+    new = [i for i in m.instances if id(i) not in old_keys]
     new_ids = set(id(i) for i in new)
     out = []
-    v1 = constraint_violations(m)
-    fresh = sorted(set(k[1:] for k in v1 if k not in v0))
+    fresh = new_constraint_violations(m, old_keys, new)
     if fresh:
         out.append(dict(clause='multiplicity', observed=['%s -[%s%s]-> %s: %s' % (a, r, ('.' + p) if p else '', b, w) for a, r, b, p, w in fresh],
                         required='every association constraint of the ooaofooa schema holds for the created instances'))
@@ -469,7 +547,7 @@ def systematic_cases(pairs=True):
             'select any/many from instances (+where), select one/any/many related by chains of 1-3 steps (+where), function/bridge/'
             'operation invocations, control stop, return, if/elif/else, while, for each, break, continue): each alone x3, (thorough: every '
             'ordered pair,) each nested in if/while/for; 6 if/elif/else ladders; in 6 action homes (function void/integer, bridge, instance and class operation, derived attribute)',
-      shards=8, weight=2)
+      shards=6, weight=2)
 def statement_kinds(ctx):
     for i, case in enumerate(systematic_cases(pairs=not ctx.quick)):
         if i % ctx.nshards != ctx.shard:
@@ -488,7 +566,7 @@ def statement_kinds(ctx):
 
 def random_cases(quick, seed):
     sizes = [2, 3, 4, 5, 6, 8, 10, 12] if quick else [2, 3, 4, 5, 6, 8, 10, 12, 16, 20, 25]
-    per = 36 if quick else 350
+    per = 36 if quick else 500
     for size in sizes:
         for n in range(per):
             for home in HOMES[:4] if n % 3 else HOMES:
@@ -498,8 +576,8 @@ def random_cases(quick, seed):
 @item('random-programs', stands_in_for=['bridgepoint.prebuild.prebuild_action', 'bridgepoint.prebuild.ActionPrebuilder'],
       bound='seeded random programs of 2..12 (quick) / 2..25 (thorough) statements, nesting depth <= 3, expressions of depth <= 3 over '
             'literals, variables, attribute/parameter reads, enumerators, constants, arithmetic, comparisons, and/or/not, cardinality/empty/'
-            'not_empty, invocations with named parameters; 36 (quick) / 350 (thorough) programs per size and home; non-trivial = distinct text',
-      shards=8, weight=3)
+            'not_empty, invocations with named parameters; 36 (quick) / 500 (thorough) programs per size and home; non-trivial = distinct text',
+      shards=10, weight=3)
 def random_programs(ctx):
     for i, (home, gen, size) in enumerate(random_cases(ctx.quick, ctx.seed)):
         if i % ctx.nshards != ctx.shard:
